@@ -276,6 +276,24 @@ def random_frame(rng, n):
 
 
 # ---------------------------------------------------------------------------------------------
+def large_frame(rng, thorough):
+    """values far beyond the small ones of the model: listings of hundreds of chunks, hundreds of warnings, and a sweep that slides the
+    line breaks of a multi-kilobyte value over every byte offset (whatever buffering or segmenting lies between daemon and client)"""
+    out = []
+    for n in ((120, 230, 450, 900) if thorough else (230, 450)):
+        lines = ["reset token=0 pow=0 cap=4000000"] + ["seed c=%d ttl=%d" % (c, rng.choice([600, 3600])) for c in range(100, 100 + n)]
+        out.append(lines + ["cresp cmd=LIST", "adv ms=1000", "cresp cmd=LIST"])
+    for n in ((60, 300, 700, 1500) if thorough else (300, 700)):
+        out.append(["reset token=0 pow=0 cap=4000000", "cfg warn=%s conflict=1" % ".".join("w%d" % i for i in range(n)), "cresp cmd=STATUS",
+                    "cfg eps=4 boots=%d" % rng.choice([3, 30]), "cresp cmd=DEFAULTS"])
+    lines = ["reset token=0 pow=0 cap=4000000"]
+    base = ".".join("w%d" % i for i in range(420 if thorough else 300))
+    for pad in range(0, 72 if thorough else 40):
+        lines += ["cfg warn=%s conflict=0 warnpad=%d" % (base, pad), "cresp cmd=STATUS"]
+    out.append(lines)
+    return out
+
+
 def _key(e):
     if e["op"] == "req":
         return ["req", e["cmd"], e.get("tokcfg"), e.get("tok") if e.get("tok") in TOKS[:7] else "literal", e.get("status"), e.get("code"), bool(e.get("early")),
@@ -381,6 +399,7 @@ def run(chk):
         rest = [fr[i] for i in range(len(fr)) if i not in set(key)]
         run_and_validate(chk, [fr[i] for i in key] + _sample(rng, rest, 700 * k), "tlc-state-cover-frame")
         run_and_validate(chk, random_frame(rng, 250 * k), "random-frame")
+        run_and_validate(chk, large_frame(rng, thorough), "large-values")
     chk.assumptions += [
         "in-process binding: a real Node and a real daemon::ControlServer on a free loopback port, steady_clock/system_clock interposed (virtual), socket time-outs in kernel time",
         "effects are observed through Node::stored_chunks(), Node::manifest_cache_ (friend NodeTestAccess), the daemon-side output directory, the stop call-back count and a following PING",
